@@ -726,6 +726,22 @@ class Engine:
                 fails.append(dict(case=line, profile='debug', why=[why], impl=byimpl.get(line, {}), model=m))
         return dict(mism=mism, fails=fails, known=known_hit, relevant=nrel, distinct=distinct)
 
+    def impl_only_known(self, ev):
+        """Witnesses of open findings that are too slow for the extracted model (known_findings.json
+        'impl_only'): run on the implementation alone; the finding is reported only if the implementation
+        still shows it (builder accepts an oversize packet, the crate's parser rejects the bytes)."""
+        for k in self.known:
+            for w in k.get('impl_only', []):
+                if self.prop not in w.get('properties', []):
+                    continue
+                line = open(os.path.join(ROOT, w['file'])).read().strip()
+                out = runner.run_cases(self.harness, [line], 'implonly')
+                a = next(iter(out.values()), {})
+                size = S.parse(a.get('size', '()'))
+                big = isinstance(size, list) and len(size) == 2 and size[0] == 'ok' and int(size[1]) > 262144
+                if big and not ok_str(a.get('rt.r', '')):
+                    ev['known'].setdefault(k['id'], '%s: %s' % (k['id'], k['text']))
+
     def account(self, stats, line, a):
         k = kind_of(line)
         t = toks(line)
@@ -751,6 +767,7 @@ class Engine:
         corpus = corpus_lines()
         lines = corpus + self.pd.cases(g, self.tier, self.helper)
         ev = self.evaluate(lines, stats)
+        self.impl_only_known(ev)
         widened = False
         total = len(lines)
         if ev['mism'] and not ev['fails']:
